@@ -1,6 +1,7 @@
 package main
 
 import (
+	"strconv"
 	"strings"
 
 	"golang.org/x/tools/go/ssa"
@@ -124,6 +125,8 @@ func runC28(c *Ctx) {
 			if l, ok := in.(*ssa.Lookup); ok && l.CommaOk {
 				if _, isMap := l.X.(*ssa.MakeMap); isMap {
 					lk = l
+				} else if cl, isCall := l.X.(*ssa.Call); isCall && samePkgHelper(fn, &cl.Call) != nil {
+					lk = l
 				}
 			}
 		}
@@ -177,6 +180,36 @@ func missTarget(lk *ssa.Lookup) *ssa.BasicBlock {
 }
 
 func (c *Ctx) mapKeysAreVkeyHashes(fn *ssa.Function, m ssa.Value) bool {
+	// the map may be built by a same-package helper: follow its returned map and translate the key provenance
+	if call, ok := m.(*ssa.Call); ok {
+		if h := samePkgHelper(fn, &call.Call); h != nil {
+			okAll := false
+			for _, hb := range h.Blocks {
+				r, isR := hb.Instrs[len(hb.Instrs)-1].(*ssa.Return)
+				if !isR || len(r.Results) != 1 {
+					continue
+				}
+				hm := rootValue(r.Results[0], 0)
+				n := 0
+				for _, in := range fnInstrs(h) {
+					mu, isMu := in.(*ssa.MapUpdate)
+					if !isMu || rootValue(mu.Map, 0) != hm {
+						continue
+					}
+					n++
+					t := substParamsTrace(trace(mu.Key), call.Call.Args)
+					if !(strings.HasPrefix(t, "Blake2b224Hash(Vkey<") && strings.Contains(t, "Vkey(Witnesses(p0))")) || !inLoop(mu.Block()) {
+						return false
+					}
+				}
+				if n == 0 {
+					return false
+				}
+				okAll = true
+			}
+			return okAll
+		}
+	}
 	n := 0
 	for _, in := range fnInstrs(fn) {
 		mu, ok := in.(*ssa.MapUpdate)
@@ -193,6 +226,17 @@ func (c *Ctx) mapKeysAreVkeyHashes(fn *ssa.Function, m ssa.Value) bool {
 		}
 	}
 	return n > 0
+}
+
+// substParamsTrace rewrites a helper's parameter tokens in a trace string with the traces of the caller's arguments.
+func substParamsTrace(s string, args []ssa.Value) string {
+	return paramTokRe.ReplaceAllStringFunc(s, func(tok string) string {
+		i, err := strconv.Atoi(tok[1:])
+		if err != nil || i >= len(args) {
+			return tok
+		}
+		return trace(args[i])
+	})
 }
 
 func (c *Ctx) checkVerifyLoop(fn *ssa.Function, calleeSuffix, passPrefixOrSuffix string, argsOK func([]string) bool) {
@@ -311,7 +355,9 @@ func (c *Ctx) checkOwnerLoop(fn *ssa.Function, listTrace string, allowBootstrap 
 			continue
 		}
 		if _, isMap := lk.X.(*ssa.MakeMap); !isMap {
-			continue
+			if cl, isCall := lk.X.(*ssa.Call); !isCall || samePkgHelper(fn, &cl.Call) == nil {
+				continue
+			}
 		}
 		kt := trace(lk.Index)
 		if !strings.HasPrefix(kt, "Hash<assert<"+pt) {
@@ -353,6 +399,101 @@ func (c *Ctx) checkOwnerLoop(fn *ssa.Function, listTrace string, allowBootstrap 
 					from *ssa.BasicBlock
 					succ int
 				}{ef.From, 0})
+			}
+		}
+		if n == 0 {
+			// the search may live in a same-package helper returning bool: the helper's true class must pass the comparison
+			// of the computed root with the parameter that receives this input's hash
+			for _, b := range fn.Blocks {
+				iff, isIf := b.Instrs[len(b.Instrs)-1].(*ssa.If)
+				if !isIf {
+					continue
+				}
+				call, idx, kind, swapped := helperTest(iff.Cond)
+				if call == nil || kind != "bool" {
+					continue
+				}
+				h := samePkgHelper(fn, &call.Call)
+				if h == nil {
+					continue
+				}
+				hashParam := -1
+				for i, a := range call.Call.Args {
+					if strings.HasPrefix(trace(a), "Hash<assert<"+pt) {
+						hashParam = i
+					}
+				}
+				if hashParam < 0 || hashParam >= len(h.Params) {
+					continue
+				}
+				hp := h.Params[hashParam]
+				// equality edges inside the helper
+				type he struct {
+					b *ssa.BasicBlock
+					s int
+				}
+				var eq []he
+				for _, hb := range h.Blocks {
+					hif, ok := hb.Instrs[len(hb.Instrs)-1].(*ssa.If)
+					if !ok {
+						continue
+					}
+					bo, ok := hif.Cond.(*ssa.BinOp)
+					if !ok || (bo.Op.String() != "==" && bo.Op.String() != "!=") {
+						continue
+					}
+					x, y := bo.X, bo.Y
+					if rootValue(y, 0) != ssa.Value(hp) && !(func() bool { a, ok := rootValue(y, 0).(*ssa.Alloc); return ok && singleStore(a) == ssa.Value(hp) })() {
+						x, y = y, x
+					}
+					yr := rootValue(y, 0)
+					isHP := yr == ssa.Value(hp)
+					if a, ok := yr.(*ssa.Alloc); ok && singleStore(a) == ssa.Value(hp) {
+						isHP = true
+					}
+					xt := substParamsTrace(trace(x), call.Call.Args)
+					if !isHP || !(strings.HasPrefix(xt, "computeByronAddressRoot(PublicKey<") && strings.Contains(xt, "ChainCode<") && strings.Contains(xt, "Attributes<") && strings.HasSuffix(xt, "#0") && strings.Contains(xt, "Bootstrap(Witnesses(p0))")) {
+						continue
+					}
+					if bo.Op.String() == "==" {
+						eq = append(eq, he{hb, 0})
+					} else {
+						eq = append(eq, he{hb, 1})
+					}
+				}
+				if len(eq) == 0 {
+					continue
+				}
+				hreach, _ := reachAvoiding(h, func(from *ssa.BasicBlock, s int) bool {
+					for _, e := range eq {
+						if e.b == from && e.s == s {
+							return true
+						}
+					}
+					return false
+				})
+				allTrue := true
+				for _, hb := range h.Blocks {
+					if r, ok := hb.Instrs[len(hb.Instrs)-1].(*ssa.Return); ok && idx < len(r.Results) {
+						if k, isK := returnedValue(r, idx).(*ssa.Const); isK && desc(k) == "false" {
+							continue
+						}
+						if hreach[hb] {
+							allTrue = false
+						}
+					}
+				}
+				if allTrue {
+					n++
+					succ := 0
+					if swapped {
+						succ = 1
+					}
+					owner = append(owner, struct {
+						from *ssa.BasicBlock
+						succ int
+					}{b, succ})
+				}
 			}
 		}
 		c.Check(n == 1, "owner-witnessed", key+":bootstrap-root", ta.Pos(), "a bootstrap witness counts only when the address root computed from its key, chain code and attributes equals the input's hash", "no comparison of the computed Byron address root with the input's hash was found (or more than one)")
